@@ -61,6 +61,9 @@ CLAIMED = {
     "C15": ("generated channel programs on every bootstrap path x isolated interpreters (-I -S, CPython 3.10-3.13) x execmodels with the C02 transcript oracle and remote preconditions; exhaustive sweep of the shipped sources' imports and free names",
             "Generated conversation programs run on workers bootstrapped by import, python=, via an isolated forwarder, socket via an isolated host, the stand-alone socketserver.py under an isolated interpreter and a stub-ssh path, on every CPython present started with -I -S; each case first verifies remotely that execnet is not importable there, then applies the C02 transcript oracle and finally requires that no execnet module got loaded. A finite-domain sweep executes every import statement of the shipped sources in every isolated interpreter and resolves every global name used in functions of the bootstrap source.",
             "ssh only through a local stub; vagrant not exercised; gevent/eventlet unavailable without site-packages. The static part is an exhaustive enumeration, reported as such.", "3/C15"),
+    "C16": ("differential testing across transports: the same generated channel program on popen (reference), python=, via and socket gateways for thread / main_thread_only / gevent workers; per-run transcript oracle plus equality of normalised transcripts",
+            "Generated schedule-independent channel programs (typed payloads up to 300 KB / 8 MB, sub-channels, callbacks, raising bodies and callbacks, close/end/raise stream ends) are run unchanged on a direct popen gateway and on the python=, via and socket transports for each remote execmodel; every run must satisfy its own transcript oracle and its normalised transcript must equal the reference transport's.",
+            "Real workers, OS schedule not owned; only schedule-independent programs are compared; racy send outcomes are normalised away. Control path (terminate/kill through a proxy) is covered by C05.", "3/C16"),
 }
 
 NOT_APPLICABLE = {}
